@@ -215,6 +215,27 @@ def run(tier: str) -> int:
                     rep.violation(f"contract:{d['op']}:{q}", f"{d['op']}: a recorded call violates '{q}' of its contract ({e['info']})", {"event": e})
     finally:
         shutil.rmtree(tmp, ignore_errors=True)
+    # ---- the default mask belongs to its operation: restricting one operation in place (op.mask[2, :] = False ...) must
+    # not restrict any other default-mask operation, created before or after ------------------------------------------------
+    from quansino.operations.cell import AnisotropicDeformation as _A, IsotropicDeformation as _I, ShapeDeformation as _S
+
+    for K1 in (_I, _A, _S):
+        before = K1(0.05)
+        edited = K1(0.05)
+        try:
+            edited.mask[2, :] = False
+            edited.mask[:, 2] = False
+        except Exception:  # noqa: BLE001  (a read-only default mask would be fine too)
+            pass
+        after = K1(0.05)
+        for tag, op in (("created-before", before), ("created-after", after)):
+            cell = random_cell(rs)
+            ctx = ctx_for(molecule(rs, cell), int(rs.randint(1, 2**31)))
+            F = np.asarray(op.calculate(ctx), float)
+            rep.count(("default-mask-shared", K1.__name__, tag))
+            masked_like = bool(np.array_equal(F[2, :], np.eye(3)[2, :]) and np.array_equal(F[:, 2], np.eye(3)[:, 2]))
+            if masked_like and not np.allclose(F, np.eye(3)):
+                rep.violation(f"mask:default-mask-shared:{K1.__name__}", f"{K1.__name__}: after the mask of ONE default-mask operation was edited in place, another default-mask operation ({tag}) returns a gradient that is the identity in the third row and column: {F.tolist()}", {"op": K1.__name__, "which": tag})
     # ---- (2b) "for all generator states": long streams through the SAME operation objects -----------------------------
     nlong = 30000 if tier == "quick" else 400000
     cell = random_cell(rs)
@@ -275,6 +296,35 @@ def run(tier: str) -> int:
                 kept = []
                 break
         kept = (kept + [(name, raw, np.array(raw, float, copy=True))])[-6:]
+    # ---- composites whose parts all return one row per atom (groups of 2, 3, 4 atoms) and composites of deformations:
+    # the composite is the SUM of what its parts return for the same draws ---------------------------------------------------
+    for it in range(120 if tier == "quick" else 1500):
+        cell = random_cell(rs)
+        at = molecule(rs, cell)
+        na = int(rs.choice([2, 3, 4]))
+        if len(at) < na:
+            at = at + at[: na - len(at)]
+            at.positions[len(at) - 1] += 0.9
+        at = at[:na]
+        kind = it % 3
+        if kind == 0:
+            parts = [Rotation(), Rotation()]
+        elif kind == 1:
+            parts = [TranslationRotation(), Rotation()]
+        else:
+            parts = [IsotropicDeformation(0.03), ShapeDeformation(0.02)] if it % 2 else [AnisotropicDeformation(0.03), AnisotropicDeformation(0.02)]
+        comp = parts[0] + parts[1]
+        seed = int(rs.randint(1, 2**31))
+        try:
+            got = np.asarray(comp.calculate(ctx_for(at, seed)), float)
+            ctx2 = ctx_for(at, seed)
+            want = np.asarray(parts[0].calculate(ctx2), float) + np.asarray(parts[1].calculate(ctx2), float)
+        except Exception as ex:  # noqa: BLE001
+            rep.violation(f"raise:composite:{type(parts[0]).__name__}+{type(parts[1]).__name__}:{type(ex).__name__}", f"a composite of {type(parts[0]).__name__} and {type(parts[1]).__name__} raised {ex!r} on a group of {na} atoms", {"natoms": na})
+            continue
+        rep.count(("composite-sum", it))
+        if got.shape != want.shape or not np.allclose(got, want, rtol=1e-12, atol=1e-12):
+            rep.violation(f"composite-not-sum:{type(parts[0]).__name__}+{type(parts[1]).__name__}:natoms={na if kind < 2 else 0}", f"{type(parts[0]).__name__} + {type(parts[1]).__name__} on a group of {na} atoms does not return the sum of its parts (max deviation {float(np.abs(got - want).max()) if got.shape == want.shape else 'shape'})", {"natoms": na})
     rep.sample({"event": {k: v for k, v in events[0].items() if k != "info"}})
     rep.sample({"event": {k: v for k, v in events[7].items() if k != "info"}})
     # ---- (3) symmetry -----------------------------------------------------------------------------------------------
